@@ -369,9 +369,11 @@ def opt_is_some(it, o):
     return d == 1
 
 
-def into_iter(v):
+def into_iter(v, it=None):
     if isinstance(v, IterBase):
         return v
+    if isinstance(deref(v), HashSetV) and it is not None:
+        return hash_order_iter(it, deref(v), 'into_iter')
     if isinstance(v, VecV):
         return ListIter(v.items)          # by value
     if isinstance(v, Ref):
@@ -392,7 +394,7 @@ def m_slice_iter(it, n, a):
 
 @model(r'as IntoIterator>::into_iter$')
 def m_into_iter(it, n, a):
-    return into_iter(a[0])
+    return into_iter(a[0], it)
 
 
 @model(r'^(Arena|UniqueArena)::<.*>::iter$')
@@ -1194,19 +1196,63 @@ def m_hs_contains(it, n, a):
     return hs_contains(arg0(a), a[1])
 
 
-@model(r'^HashSet::<.*>::(iter|into_iter|drain)$|HashSet<.*> as IntoIterator>::into_iter$')
-def m_hs_iter(it, n, a):
+def hash_order_iter(it, s, what):
     """iteration order of a hash set is unspecified: every permutation is possible (chosen by fresh decisions)"""
-    s = arg0(a)
     items = list(s.items)
     if any(is_sym(x) for x in items):
+        # members that may coincide: fork on equalities first so that the list is duplicate-free
         raise Unsupported('iteration over a hash set with symbolic members')
     out = []
     while items:
-        i = it.decide([z3.Bool(f'hash_order!{it.fresh_n}!{len(out)}!{j}') if False else (it.fresh('hash_pick', 8) == j) for j in range(len(items))] ) if len(items) > 1 else 0
+        if len(items) > 1:
+            pick = it.fresh('hash_pick', 8)
+            i = it.decide([pick == j for j in range(len(items))] + [z3.UGE(pick, len(items))])
+            if i >= len(items):
+                i = 0
+        else:
+            i = 0
         out.append(items.pop(i))
-    it.env.setdefault('hash_iterated', []).append(n)
-    return ListIter(out)
+    it.env.setdefault('hash_iterated', []).append(what)
+    return ListIter([mkref(x) for x in out])
+
+
+@model(r'^HashSet::<.*>::(iter|drain)$')
+def m_hs_iter(it, n, a):
+    return hash_order_iter(it, arg0(a), n)
+
+
+@model(r'^HashSet::<.*>::len$')
+def m_hs_len(it, n, a):
+    s = arg0(a)
+    if any(is_sym(x) for x in s.items):
+        raise Unsupported('len of a hash set with symbolic members')
+    return len(s.items)
+
+
+# ---- impure reads: modelled as fresh unknowns and recorded, so that a dependence on them becomes a counterexample
+def impure(it, what, value):
+    it.env.setdefault('impure_reads', []).append(what)
+    return value
+
+
+@model(r'^std::env::(var|var_os)(::<.*>)?$|^env::(var|var_os)(::<.*>)?$')
+def m_env_var(it, n, a):
+    name = deref(a[0])
+    present = it.truth(it.fresh('env_var_present', 'bool'))
+    it.fresh_n += 1
+    v = SymStr([('sym', f'env:{name}!{it.fresh_n}')])
+    return impure(it, f'env::var({name!r})', ok(v) if ('var_os' not in n and present) else (some(v) if present and 'var_os' in n else (err(Opaque('VarError')) if 'var_os' not in n else none())))
+
+
+@model(r'^std::env::current_dir$|^env::current_dir$')
+def m_current_dir(it, n, a):
+    it.fresh_n += 1
+    return impure(it, 'env::current_dir()', ok(SymStr([('sym', f'cwd!{it.fresh_n}')])))
+
+
+@model(r'SystemTime::now$|Instant::now$|^std::process::id$|^process::id$|RandomState::new$|thread_rng$|^rand::random')
+def m_clock(it, n, a):
+    return impure(it, n, it.fresh('nondet', 64))
 
 
 # =========================================================================================== naga / wgpu accessors
